@@ -312,6 +312,12 @@ theorem eraseExpr_norm (s : Expr) : eraseExpr (normExpr s) = normExpr s := by
 
 /-! ### parse ∘ format on well-shaped trees -/
 
+/-- the end-of-line comments the lexer records while parsing `x` (in reverse source order) -/
+def eolComments (x : Bytes) : List Comment :=
+  match parseFile x with
+  | .ok (_, i) => i.commentsRev
+  | .error _ => []
+
 theorem newInput_lineStart (data : Bytes) : LineStart (newInput data) := rfl
 
 /-- ★ Formatting a well-shaped tree without header comments and parsing the result succeeds; the new
@@ -320,7 +326,7 @@ theorem newInput_lineStart (data : Bytes) : LineStart (newInput data) := rfl
 theorem reparse_wf (name : Bytes) (f : FileSyntax) (hwf : WFStmts f.stmts) (hc : f.comments.before = []) :
     ∃ t', parse name (format f) = .ok t' ∧
       eraseFile t' = { name := name, comments := {}, stmts := f.stmts.map normExpr } ∧
-      WFStmts t'.stmts ∧ t'.comments = {} := by
+      WFStmts t'.stmts ∧ t'.comments = {} ∧ eolComments (format f) = [] := by
   rw [format_eq_rStmts f hwf hc]
   have hlex := lexes_rStmts f.stmts hwf
   obtain ⟨i0, hr0, _, hc0, hS0⟩ := hlex (newInput (rStmts f.stmts)) rfl (fun _ => newInput_lineStart _)
@@ -356,7 +362,11 @@ theorem reparse_wf (name : Bytes) (f : FileSyntax) (hwf : WFStmts f.stmts) (hc :
     rw [← heq]
     exact (wfStmt_erase s0).2 (hwfn s0 hs0)
   have hassign := assignComments_nil name out (fun s hs => wf_noSuf (hwfo s hs))
-  refine ⟨{ name := name, stmts := out }, ?_, ?_, hwfo, rfl⟩
+  have heol : eolComments (rStmts f.stmts) = [] := by
+    unfold eolComments parseFile
+    simp only [hr0, bind, Except.bind, hres]
+    exact hcr
+  refine ⟨{ name := name, stmts := out }, ?_, ?_, hwfo, rfl, heol⟩
   · unfold parse parseFile
     simp only [hr0, bind, Except.bind, hres, List.reverse_nil, List.nil_append, hcr, hassign]
   · simp only [eraseFile, hout, List.map_map]
@@ -369,7 +379,7 @@ theorem reparse_wf (name : Bytes) (f : FileSyntax) (hwf : WFStmts f.stmts) (hc :
     formats to the same bytes. -/
 theorem format_idem_wf (name : Bytes) (f : FileSyntax) (hwf : WFStmts f.stmts) (hc : f.comments.before = [])
     (t' : FileSyntax) (h : parse name (format f) = .ok t') : format t' = format f := by
-  obtain ⟨t2, h2, he, hwf2, hc2⟩ := reparse_wf name f hwf hc
+  obtain ⟨t2, h2, he, hwf2, hc2, _⟩ := reparse_wf name f hwf hc
   rw [h] at h2
   have : t' = t2 := by cases h2; rfl
   subst this
